@@ -116,3 +116,34 @@ pub fn depth_strategy(max: u32) -> impl Strategy<Value = u32> {
 pub fn nesting(max_depth: u32) -> impl Strategy<Value = (usize, u32, bool)> {
     (0..KINDS.len(), depth_strategy(max_depth), any::<bool>())
 }
+
+/// comment lines put between nesting levels (index 0 = none): plain, well-formed doc tags, doc tags whose type is cut off
+pub const FILLERS: &[&str] = &["", "-- c", "---@type (", "---@type string", "---@param", "---@class", "--[[ x ]]", "---@type fun(", "---@return A<", "--- text `", "---@type {a:", "---@cast x [", "---@generic T :", "---@alias A (A|"];
+
+/// like `render`, with the comment line `FILLERS[filler]` on a line of its own after every `period` levels
+/// (doc-type kinds are one comment line themselves and take no filler)
+pub fn render_with(kind: usize, depth: u32, closed: bool, filler: u8, period: u16) -> String {
+    let k = &KINDS[kind % KINDS.len()];
+    let f = FILLERS[filler as usize % FILLERS.len()];
+    if f.is_empty() || k.doc || period == 0 {
+        return render(kind, depth, closed);
+    }
+    let mut s = String::new();
+    s.push_str(k.prefix);
+    for i in 0..depth as usize {
+        s.push_str(k.open);
+        if (i + 1) % period as usize == 0 {
+            s.push('\n');
+            s.push_str(f);
+            s.push('\n');
+        }
+    }
+    s.push_str(k.core);
+    if closed {
+        for _ in 0..depth {
+            s.push_str(k.close);
+        }
+    }
+    s.push_str(k.suffix);
+    s
+}
